@@ -136,6 +136,9 @@ type peerGater struct {
 	peerStats map[peer.ID]*peerGaterStats
 	// stats per IP
 	ipStats map[string]*peerGaterStats
+	// peers with an open outbound stream; these are the peers counted in the connected
+	// counter of their (possibly shared) stats object
+	outbound map[peer.ID]struct{}
 
 	// for unit tests
 	getIP func(peer.ID) string
@@ -199,6 +202,7 @@ func newPeerGater(ctx context.Context, host host.Host, params *PeerGaterParams, 
 		params:    params,
 		peerStats: make(map[peer.ID]*peerGaterStats),
 		ipStats:   make(map[string]*peerGaterStats),
+		outbound:  make(map[peer.ID]struct{}),
 		host:      host,
 		logger:    logger,
 	}
@@ -376,7 +380,10 @@ func (pg *peerGater) OnNewOutboundStream(p peer.ID, proto protocol.ID) {
 	defer pg.Unlock()
 
 	st := pg.getPeerStats(p)
-	st.connected++
+	if _, ok := pg.outbound[p]; !ok {
+		pg.outbound[p] = struct{}{}
+		st.connected++
+	}
 }
 
 func (pg *peerGater) OnClosedOutboundStream(p peer.ID) {
@@ -396,12 +403,25 @@ func (pg *peerGater) removePeerStats(p peer.ID, outbound bool) {
 		return
 	}
 
-	if outbound && st.connected > 0 {
-		st.connected--
+	_, hasOutbound := pg.outbound[p]
+	if outbound {
+		if hasOutbound {
+			delete(pg.outbound, p)
+			if st.connected > 0 {
+				st.connected--
+			}
+		}
+	} else if hasOutbound {
+		// the outbound stream is still open; its closing will clean up
+		return
 	}
+
+	// The per-peer entry is only an index into the statistics of the peer's IP, which may be
+	// shared with other connected peers: always drop it, and start the retention of the shared
+	// statistics once no peer of that IP is connected any more.
+	delete(pg.peerStats, p)
 	if st.connected == 0 {
 		st.expire = time.Now().Add(pg.params.RetainStats)
-		delete(pg.peerStats, p)
 	}
 }
 
